@@ -56,6 +56,11 @@ type crt struct {
 	abort int // step at which to kill the running program (-1: never)
 	steps int
 	nid   int
+	// a function to send on the runtime's Interrupt channel once step sendAt
+	// has been passed (midcopy / halt operations)
+	sendAt int
+	sendFn func()
+	sent   bool
 }
 
 var crts = map[*otto.Otto]*crt{}
@@ -63,7 +68,7 @@ var crts = map[*otto.Otto]*crt{}
 func crtOf(o *otto.Otto) *crt {
 	c := crts[o]
 	if c == nil {
-		c = &crt{ids: map[uintptr]int{}, abort: -1}
+		c = &crt{ids: map[uintptr]int{}, abort: -1, sendAt: -1}
 		crts[o] = c
 	}
 	return c
@@ -147,6 +152,13 @@ func copyHook(o *otto.Otto, kind otto.VerifStepKind, node interface{}) {
 		return
 	}
 	c.steps++
+	if c.sendAt >= 0 && c.steps > c.sendAt && !c.sent && o.Interrupt != nil {
+		c.sent = true
+		select {
+		case o.Interrupt <- c.sendFn:
+		default:
+		}
+	}
 	if c.abort >= 0 && c.steps > c.abort {
 		panic(harnessAbort{"abort op"})
 	}
@@ -184,6 +196,21 @@ func runOn(vm *otto.Otto, src string, abortAt int) string {
 		res += fmt.Sprintf(" NOT-AT-REST %d %d", d, l)
 	}
 	return res
+}
+
+// runOnSending executes src on vm with an interrupt channel installed; once
+// step sendAt has been passed fn is sent on it, so that it runs on the
+// interpreter's goroutine at the next poll (the same instant on every runtime
+// that executes the same program from the same state).
+func runOnSending(vm *otto.Otto, src string, sendAt int, fn func()) string {
+	c := crtOf(vm)
+	vm.Interrupt = make(chan func(), 1)
+	c.sendAt, c.sendFn, c.sent = sendAt, fn, false
+	defer func() {
+		c.sendAt, c.sendFn = -1, nil
+		vm.Interrupt = nil
+	}()
+	return runOn(vm, src, -1)
 }
 
 func dumpOf(vm *otto.Otto) string {
@@ -230,6 +257,14 @@ func applyOp(vm *otto.Otto, op *COp) string {
 		return runOn(vm, op.Src, op.Step)
 	case "mut":
 		return runOn(vm, "__mut("+strconv.Itoa(op.N)+","+strconv.Itoa(op.MKind)+","+strconv.Itoa(op.Arg)+")", -1)
+	case "midcopy":
+		// on the runtime that is being copied (and on its twin) the operation is
+		// an ordinary run: taking a copy must not perturb the original
+		return runOn(vm, op.Src, -1)
+	case "halt":
+		// the program is stopped by an interrupt function that panics (not
+		// catchable by the script) at the poll that follows step op.Step
+		return runOnSending(vm, op.Src, op.Step, func() { panic(harnessAbort{"halt"}) })
 	}
 	fatalf("applyOp: kind %q", op.Kind)
 	return ""
@@ -348,7 +383,43 @@ func execCopy(c *CopyCase, st *Stats) *Violation {
 			if src.id != 0 {
 				st.Probe("copy_of_copy")
 			}
-		case "run", "abort", "mut":
+		case "midcopy":
+			// Copy() taken from inside an interrupt function while op.Src is
+			// running on the node; the copy must equal a runtime that replayed the
+			// node's history and was stopped at that very poll
+			n := nodes[op.Node]
+			var cp *otto.Otto
+			var perr interface{}
+			before := append([]COp(nil), n.lineage...)
+			tn, tt := len(crtOf(n.vm).trace), len(crtOf(n.twin).trace)
+			r1 := runOnSending(n.vm, op.Src, op.Step, func() {
+				defer func() { perr = recover() }()
+				cp = n.vm.Copy()
+			})
+			r2 := applyOp(n.twin, op)
+			n.lineage = append(n.lineage, *op)
+			delete(twinDump, n.id)
+			st.Fault("midcopy")
+			if perr != nil {
+				return viol("C17", "copy_panicked", "%s: Copy() from inside an interrupt function panicked with %T: %v", when, perr, perr)
+			}
+			if r1 != r2 {
+				return viol("C17", "result_diverged", "%s: node (copied mid-run) gives %q, its replay twin %q", when, clip(r1), clip(r2))
+			}
+			a, b := crtOf(n.vm).trace[tn:], crtOf(n.twin).trace[tt:]
+			if len(a) != len(b) {
+				return viol("C17", "trace_diverged", "%s: %d host calls on the node (copied mid-run), %d on the twin; %s", when, len(a), len(b), firstDiff(a, b))
+			}
+			if cp != nil {
+				cp.Interrupt = nil
+				st.Probe("copy_taken_mid_run")
+				halt := *op
+				halt.Kind = "halt"
+				m := &cnode{id: len(nodes), vm: cp, lineage: append(before, halt)}
+				m.twin = twinOf(c.Limit, m.lineage)
+				nodes = append(nodes, m)
+			}
+		case "run", "abort", "mut", "halt":
 			n := nodes[op.Node]
 			tn, tt := len(crtOf(n.vm).trace), len(crtOf(n.twin).trace)
 			r1 := applyOp(n.vm, op)
@@ -383,7 +454,7 @@ func execCopy(c *CopyCase, st *Stats) *Violation {
 		// third operation.
 		only = map[int]bool{}
 		switch op.Kind {
-		case "copy":
+		case "copy", "midcopy":
 			only[op.Node], only[len(nodes)-1] = true, true
 		case "interleave":
 			for _, ni := range op.Nodes {
@@ -708,6 +779,9 @@ func (copyEngine) Gen(t *rapid.T, tier string) interface{} {
 				n = rapid.IntRange(0, 3000).Draw(t, "objidx_far")
 			}
 			c.Ops = append(c.Ops, COp{Kind: "mut", Node: node, N: n, MKind: rapid.IntRange(0, 10).Draw(t, "mkind"), Arg: rapid.IntRange(0, 30).Draw(t, "marg")})
+		case k == 7 && rapid.Bool().Draw(t, "midcopy?") && nnodes < maxNodes:
+			c.Ops = append(c.Ops, COp{Kind: "midcopy", Node: node, Src: genCopyProg(t, &uid), Step: rapid.IntRange(0, 150).Draw(t, "copystep")})
+			nnodes++
 		case k == 7:
 			c.Ops = append(c.Ops, COp{Kind: "abort", Node: node, Src: genCopyProg(t, &uid), Step: rapid.IntRange(0, 120).Draw(t, "abortstep")})
 		case k == 8 && nnodes >= 2:
